@@ -97,6 +97,7 @@ def s(conc_sampler, tree, tree_dist):
     ctx.check(ok, "U2", "_run_main_sampler updates the concentration of the chain's tree_dist from the current tree", m.where(cs[0]) if cs else m.where(), "update_concentration_value is not called once with (conc_sampler, tree, tree_dist)", construct=m.qualname, stmt="update_concentration_value(conc_sampler, tree, tree_dist)")
 
     rule_U3(ctx)
+    rule_U4(ctx)
     ctx.analysed(f, init, g, nd, m)
     # "the new value is used by every subsequent density evaluation": results memoised under the old value must not
     # be served after the update, i.e. every cache on the proposal path is keyed on the concentration by value
@@ -106,6 +107,33 @@ def s(conc_sampler, tree, tree_dist):
 
     ctx._own_rules = set(ctx.rule_min)
     imported(ctx, C14.rule_K1)
+
+
+COPIERS = {"dataclasses.astuple", "dataclasses.asdict", "dataclasses.replace", "copy.deepcopy", "copy.copy", "pickle.loads"}
+
+
+def rule_U4(ctx):
+    """"Assignment into the shared prior object": the update reaches every density evaluation only because the chain's
+    samplers, kernel and joint distribution all hold *the same* prior object.  A deep copy of any of them between
+    set-up and the sweep loop (dataclasses.astuple / asdict recurse with copy.deepcopy; copy.deepcopy; a pickle round
+    trip) silently gives the loop private copies that keep the initial value."""
+    prog = ctx.prog
+    ctx.rule("U4", "the objects that share the prior (samplers, kernel, tree_dist) are passed on by reference in run.py: never through dataclasses.astuple / asdict / replace, copy.copy / deepcopy or a pickle round trip", 1)
+    mod = prog.module("phyclone.run")
+    shared = ("sampler", "kernel", "tree_dist", "prior")
+    n = 0
+    for fi in prog.functions.values():
+        if fi.module is not mod:
+            continue
+        for c in calls(fi.node):
+            full = c.func.id if isinstance(c.func, ast.Name) else u(c.func)
+            target = mod.imports.get(full.split(".")[0], full.split(".")[0]) + full[len(full.split(".")[0]):]
+            if target in COPIERS:
+                n += 1
+                args = [u(a) for a in c.args] + [u(k.value) for k in c.keywords]
+                hit = [a for a in args if any(s_ in a for s_ in shared)]
+                ctx.check(not hit, "U4", "%s: %s(%s) does not copy an object that shares the prior" % (fi.name, target, ", ".join(args)), fi.where(c), "%s copies %s: the copy holds its own tree distribution / prior, so the concentration assigned by update_concentration_value never reaches the moves that evaluate densities through it" % (target, ", ".join(hit)), construct=fi.qualname, stmt=target + "(shared object)")
+    ctx.ok("U4", "run.py: %d copying call(s) inspected" % n, "phyclone/run.py")
 
 
 def rule_U3(ctx):
